@@ -37,6 +37,16 @@ class Obj:
     def __repr__(self):
         return '<{} {}>'.format(self._cls, self._f)
 
+    def __eq__(self, other):
+        # value classes of the repository (PDAState, Rule ...) define __eq__ over their fields; modelled objects compare so
+        return isinstance(other, Obj) and self._cls == other._cls and self._f == other._f
+
+    def __ne__(self, other):
+        return not self.__eq__(other)
+
+    def __hash__(self):
+        return hash((self._cls, repr(sorted(self._f.items(), key=lambda kv: kv[0]))))
+
 
 class Raised(Exception):
     def __init__(self, name):
@@ -79,12 +89,17 @@ class Interp:
             raise Unsupported('recursion too deep')
         node = f.node
         a = node.args
-        if a.vararg or a.kwarg or a.posonlyargs:
+        if a.kwarg or a.posonlyargs:
             raise Unsupported('signature of ' + f.name)
         names = [x.arg for x in a.args]
         env = {}
         if len(args) > len(names):
-            raise Unsupported('too many arguments for ' + f.name)
+            if not a.vararg:
+                raise Unsupported('too many arguments for ' + f.name)
+            env[a.vararg.arg] = tuple(args[len(names):])
+            args = args[:len(names)]
+        elif a.vararg:
+            env[a.vararg.arg] = ()
         for n, v in zip(names, args):
             env[n] = v
         defaults = dict(zip(names[len(names) - len(a.defaults):], a.defaults))
@@ -488,6 +503,16 @@ class Interp:
                 raise Unsupported('isinstance in a finite model')
             if short in ('print', 'log'):
                 return None
+            if short == 'defaultdict' and len(args) <= 1 and not kwargs:
+                import collections
+                fac = args[0] if args else None
+                if isinstance(fac, Closure):
+                    return collections.defaultdict(lambda fac=fac: self.call_closure(fac, [], {}))
+                if fac in (set, list, dict, int) or fac is None:
+                    return collections.defaultdict(fac)
+                if isinstance(fac, tuple) and fac and fac[0] == '$name' and fac[1].split('.')[-1] in self.classes:
+                    return collections.defaultdict(self.classes[fac[1].split('.')[-1]])
+                raise Unsupported('defaultdict factory')
             if name in ('itertools.product',):
                 import itertools
                 rep = kwargs.get('repeat', 1)
@@ -509,6 +534,13 @@ class Interp:
             if short == 'iter' and len(args) == 1:
                 return iter(sorted(args[0], key=repr)) if isinstance(args[0], (set, frozenset)) else iter(args[0])
             r = self.ctx.resolve_call(f, e)
+            if r is not None and r.kind == 'func':
+                return self.call(r.target, args, kwargs)
+            # a function handed around as a value: resolve the name it was taken from
+            try:
+                r = self.ctx.prog.resolve_expr(f, f.module, ast.parse(name, mode='eval').body)
+            except Exception:
+                r = None
             if r is not None and r.kind == 'func':
                 return self.call(r.target, args, kwargs)
             raise Unsupported('call of ' + name)
